@@ -73,6 +73,13 @@ def exchange(lv: Live, req: bytes, script: str, x: int, ver: bool, timeout: floa
     elif script == "hdr":
         lv.send(req)
         sts = lv.wait_streams(1, timeout, base)
+        if not sts or not sts[0].get("complete"):
+            # No (complete) reply to the stream request within the watchdog.  Never pipeline the probe behind an
+            # unanswered stream request: a slow server would read it as stream input and the HARNESS would have
+            # desynchronised the connection.  Report "short" so the caller confirms alone with the generous watchdog.
+            return {"first": "none", "probe": "none", "died": bool(lv.died), "ended": lv.ended.is_set() and not lv.died,
+                    "short": True, "reset": lv.reset, "swallowed": False, "nstreams": len(sts), "expect": 2,
+                    "died_with": (lv.died[0] if lv.died else None), "err_type": None, "used": 0}
         if sts and sts[0].get("complete") and world.error_of(sts[0]) is None:
             lv.send(R.CLOSE_INPUT)          # the stream opened: header read, now close() it
             expect = 2
